@@ -34,7 +34,7 @@ out = ['# Seeded changes', '',
        'shared code, innocent-looking clean-ups), `Cxx-r4-k` (fourth: helpers / base classes / data-model methods, single branches, boundary counts,',
        'dtype and shape corners, error paths, aliasing-dependent orders, faster equivalents), `Cxx-r5-k` (fifth: interactions of two features, shared',
        'infrastructure with the anchored functions textually untouched, Python subtleties, numeric corners), `Cxx-r6-k` (sixth: logging and formatting side effects,',
-       'builtin versus NumPy namesakes, early exits, what is passed between layers, cached attribute reads, precedence and integer wrap-around), `Cxx-r7-k` (seventh, adversarial: effects that only show at scale, files outside the anchors, unusual but valid element types, three-step sequences, rare numerical coincidences), `Cxx-r8-k` (eighth: ordinary pull requests of a maintainer -- performance, modernisation, robustness, API polish), `Cxx-r9-k` (ninth, ten properties only: a contributor's fix of one real-looking issue that is right for the reported case and breaks the property elsewhere; public API only).  The `checks` column is the result of the LAST regression run of every seed against the current checks.', '',
+       'builtin versus NumPy namesakes, early exits, what is passed between layers, cached attribute reads, precedence and integer wrap-around), `Cxx-r7-k` (seventh, adversarial: effects that only show at scale, files outside the anchors, unusual but valid element types, three-step sequences, rare numerical coincidences), `Cxx-r8-k` (eighth: ordinary pull requests of a maintainer -- performance, modernisation, robustness, API polish), `Cxx-r9-k` (ninth, ten properties only: the fix of one real-looking issue by a contributor that is right for the reported case and breaks the property elsewhere; public API only).  The `checks` column is the result of the LAST regression run of every seed against the current checks.', '',
        '| id | change | needs to manifest | checks |', '|---|---|---|---|'] + rows
 open('/verif/seeded/README.md', 'w').write('\n'.join(out) + '\n')
 print(len(rows), 'rows')
